@@ -477,6 +477,26 @@ def gen_cases(tier, seed, udir):
         direct = rnd.random() < 0.4
         cases.append(dict(kind='refusal', path=path, shipped=(path == kernels[0]), p=[float(x) for x in p], l=[float(x) for x in l], w=[float(v) for v in w],
                           lo=None, hi=None, order=ci % 4, weights='-', scale=0, grid=how, limits='none', direct=direct, bad=bad))
+    # ---- the other size boundary: a user kernel with as many pore widths as the smoothing spline has samples (the default `n` of
+    # math_utilities.bspline, read from its signature), and one fewer / one more (thorough) x every spline order. Own generator.
+    import inspect
+    from pygaps.utilities import math_utilities as _mu
+    n_s = inspect.signature(_mu.bspline).parameters['n'].default
+    rs = random.Random(seed * 7919 + 13)
+    if isinstance(n_s, int) and 5 < n_s <= 400:
+        for m in ((n_s, n_s - 1, n_s + 1) if tier == 'thorough' else (n_s,)):
+            path = write_user_kernel(rs, os.path.join(udir, 'small'), 0, name='samples_%d_s%d_%s.csv' % (m, seed, tier), m=m, npz=rs.randint(12, 20))
+            keys, widths, k, klo, khi = load(path)
+            fk, fp, ft = read_csv_plain(path)
+            for order in (0, 1, 2, 3):
+                p = sorted(rs.sample(fp, rs.randint(max(3, len(fp) - 4), len(fp))))
+                pat, scale, w = gen_weights(rs, len(keys))
+                l = (kernel_matrix_text(path, p) * w[:, None]).sum(axis=0)
+                if float(np.abs(l).max()) > 20.0:            # keep the loadings in the usual mmol/g range (C18-F1 is about hundreds of mmol/g)
+                    f_ = 20.0 / float(np.abs(l).max()); w = w * f_; l = l * f_
+                cases.append(dict(kind='fit', path=path, shipped=False, p=p, l=[float(v) for v in l], w=[float(v) for v in w], lo=None, hi=None,
+                                  order=order, weights=pat, scale=scale, grid='%d-widths/file-nodes' % m, limits='none', direct=(order % 2 == 1), by_name=False,
+                                  text_nodes=True))
     for ci in range(6 if tier == 'thorough' else 2):
         path = kernels[0]
         keys, widths, k, klo, khi = load(path)
@@ -688,6 +708,44 @@ def explore(rep, tier, seed, udir):
                     fail(c, 'outside-points-influence', 'points outside the limits %s: result changed (%s)' % (label, oc2),
                          {'perturbed_p': pp, 'perturbed_l': ll})
             nontrivial.add(('window', ci))
+        # 5b points outside the limits that no kernel could describe (above the kernel range, above saturation p/p0 > 1, below the
+        # first kernel pressure) do not matter either: the isotherm WITH such points + limits == the isotherm without them
+        if not c.get('direct') and (c['hi'] is not None or (c['lo'] is not None and klo > 0)) and (tier == 'thorough' or stats.get('beyond_range_runs', 0) < 16):
+            keep = [i for i in range(len(c['p'])) if i not in out]
+            rb = random.Random(seed * 1009 + ci)
+            pp, ll = [c['p'][i] for i in keep], [c['l'][i] for i in keep]
+            added = []
+            if c['hi'] is not None:
+                kinds = rb.sample(['above-kernel-range', 'over-saturation', 'far-above'], rb.randint(1, 3))
+                xs = set()
+                for kd in kinds:
+                    if kd == 'above-kernel-range' and khi < 1:
+                        xs.add(float('%.8g' % rb.uniform(khi + 1e-6 * (1 - khi), 1.0)))
+                    elif kd == 'over-saturation':
+                        xs.add(float('%.8g' % (1 + 10 ** rb.uniform(-5, -2))))
+                    else:
+                        xs.add(float('%.8g' % rb.uniform(max(1.0, khi) * 1.011, 3.0)))
+                xs = sorted(x for x in xs if x > khi and x > pp[-1] and x > c['hi'])
+                top = max(ll) if ll else 1.0
+                for j, x in enumerate(xs):
+                    pp.append(x); ll.append(top * (1 + 0.01 * (j + 1)) + 1e-3 * (j + 1))
+                added += xs
+            if c['lo'] is not None and klo > 0:
+                xs = sorted({float('%.8g' % (klo * 10 ** rb.uniform(-3, -0.01))) for _ in range(rb.randint(1, 2))})
+                xs = [x for x in xs if 0 < x < klo and x < pp[0] and x < c['lo']]
+                pp = xs + pp; ll = [min(ll) * 0.5 * (j + 1) / (len(xs) + 1) for j in range(len(xs))] + ll
+                added += xs
+            if added:
+                oc2, res2, _ = call_psd(c, pp, ll)
+                stats['perturbation_runs'] += 1
+                stats['beyond_range_runs'] = stats.get('beyond_range_runs', 0) + 1
+                same = oc2 == 'Ok' and all(len(res2[k]) == len(res[k]) and np.allclose(res2[k], res[k], rtol=1e-10, atol=1e-14)
+                                           for k in ('pore_widths', 'pore_distribution', 'pore_volume_cumulative', 'kernel_loading'))
+                if not same:
+                    fail(c, 'outside-points-influence', 'points %r outside the requested limits (%r, %r) and outside what the kernel covers [%g, %g] added: '
+                         'result changed (%s)' % (added, c['lo'], c['hi'], klo, khi, oc2), {'perturbed_p': pp, 'perturbed_l': ll})
+                else:
+                    nontrivial.add(('window-beyond-range', ci))
         # 6 several kernel files in one process: a byte-identical copy under another name gives the same result
         results[ci] = res
         if c.get('twin_of') is not None:
@@ -788,10 +846,10 @@ def explore(rep, tier, seed, udir):
     rep.cov['evaluations'] = rep.cov.get('evaluations', 0) + len(cases) + stats['perturbation_runs']
     rep.cov['distinct_nontrivial'] = len(nontrivial)
     rep.cov['rule'] = ('one evaluation = one call of psd_dft / psd_dft_kernel_fit on the implementation (main runs + 2 perturbed runs per case with points '
-                       'outside the limits). non-trivial = distinct fit cases (exact non-negative combination, fitted Ok and all certificate clauses '
+                       'outside the limits + 1 run with added points beyond the kernel range / above saturation / below the first kernel pressure, outside the limits; quick tier: first 16 such cases). non-trivial = distinct fit cases (exact non-negative combination, fitted Ok and all certificate clauses '
                        'checked) + distinct window cases with at least one outside point perturbed + distinct refusal patterns (how, kernel, entry point)')
     rep.cov['input_distribution'] = dict(sorted(hist.items()))
-    rep.cov['generator'] = ('random.Random(seed): kernel = shipped 77-width file (70 %) or a generated user csv (4-10 widths, 8-20 pressures); weights pattern in '
+    rep.cov['generator'] = ('random.Random(seed): kernel = shipped 77-width file (70 %) or a generated user csv (4-10 widths, 8-20 pressures), plus user kernels with 1-4 widths and with as many widths as math_utilities.bspline has samples (n=100; thorough: 99, 101) x spline orders 0-3; weights pattern in '
                             '{one, few(2-6), band(3-15 contiguous), half, dense} x scale {0.003,0.03,0.3,3} (20 % log-uniform over 4 decades); grid of 10-40 (quick) / '
                             '10-60 (thorough) strictly increasing pressures, log / linear / mixed, inside (0, kernel max], sometimes below the first file pressure '
                             'and sometimes ending exactly at the kernel maximum; limits none/lo/hi/both, 25 % exactly at a data point; spline order = index mod 4; '
